@@ -40,15 +40,21 @@ Fixpoint digits_value (radix : Z) (acc : Z) (ds : text) : option Z :=
               end
   end.
 
-(* `.ok().unwrap()`: panic on an invalid digit, an empty string, or a value that does not fit i64 *)
+(* str::to_lowercase on the characters the literal parsers accept (ASCII letters and digits) *)
+Definition ascii_lower (c : N) : N := if (65 <=? c)%N && (c <=? 90)%N then (c + 32)%N else c.
+Definition keyword_text (digits : text) : text :=
+  if literal_keywords_ignore_case then map ascii_lower digits else digits.
+(* an invalid digit, an empty string, or a value that does not fit i64: `.ok().unwrap()` panics; `.ok()` yields None,
+   which the evaluator reports as an error *)
+Definition literal_failure : res := if literal_overflow_is_error then Ovf else Panic.
 Definition number_value (radix : Z) (digits : text) : res :=
-  if text_eqb digits t_true then Val true_value
-  else if text_eqb digits t_false then Val false_value
+  if text_eqb (keyword_text digits) t_true then Val true_value
+  else if text_eqb (keyword_text digits) t_false then Val false_value
   else match digits with
-       | [] => Panic
+       | [] => literal_failure
        | _ => match digits_value radix 0 digits with
-              | Some v => if v <=? i64_max then Val v else Panic
-              | None => Panic
+              | Some v => if v <=? i64_max then Val v else literal_failure
+              | None => literal_failure
               end
        end.
 
@@ -59,7 +65,8 @@ Record env := mkEnv {
   cur_pc : option Z                        (* try_current_target_pc *)
 }.
 
-Inductive everr := ErrStrOp (op : binop) | ErrUnknownFunction (name : text) | ErrArgCount | ErrInterpolate.
+Inductive everr := ErrStrOp (op : binop) | ErrUnknownFunction (name : text) | ErrArgCount | ErrInterpolate
+  | ErrOverflow (op : binop) | ErrNegOverflow | ErrLiteral.
 Inductive eres :=
   | EVal (v : option sval)      (* None: could not be evaluated (yet) *)
   | EErr (e : everr)
@@ -68,7 +75,7 @@ Inductive eres :=
 Definition apply_flag (f : fflag) (fnot fneg : bool) (number : Z) : res :=
   match f with
   | FNot => Val (if fnot then (if number =? 0 then 1 else 0) else number)
-  | FNeg => if fneg then i64_neg number else Val number
+  | FNeg => if fneg then (if neg_checked then i64_checked_neg number else i64_neg number) else Val number
   end.
 
 Fixpoint apply_flags (order : list fflag) (fnot fneg : bool) (number : Z) : res :=
@@ -77,6 +84,7 @@ Fixpoint apply_flags (order : list fflag) (fnot fneg : bool) (number : Z) : res 
   | f :: r => match apply_flag f fnot fneg number with
               | Val n => apply_flags r fnot fneg n
               | Panic => Panic
+              | Ovf => Ovf
               end
   end.
 
@@ -85,6 +93,7 @@ Definition with_flags (fnot fneg : bool) (r : eres) : eres :=
   | EVal (Some (SNum n)) => match apply_flags flag_order fnot fneg n with
                             | Val n' => EVal (Some (SNum n'))
                             | Panic => EPanic
+                            | Ovf => EErr ErrNegOverflow
                             end
   | other => other
   end.
@@ -127,7 +136,7 @@ Fixpoint eval (en : env) (e : expr) : eres :=
           | EVal rv =>
               match lv, rv with
               | Some (SNum a), Some (SNum b) =>
-                  match apply_i64 op a b with Val z => EVal (Some (SNum z)) | Panic => EPanic end
+                  match apply_i64 op a b with Val z => EVal (Some (SNum z)) | Panic => EPanic | Ovf => EErr (ErrOverflow op) end
               | Some (SStr a), Some (SStr b) =>
                   match try_apply_str op a b with Some v => EVal (Some v) | None => EErr (ErrStrOp op) end
               | _, _ => EVal None
@@ -138,6 +147,7 @@ Fixpoint eval (en : env) (e : expr) : eres :=
       match number_value radix digits with
       | Val z => with_flags fnot fneg (EVal (Some (SNum z)))
       | Panic => EPanic
+      | Ovf => EErr ErrLiteral
       end
   | EId path m fnot fneg =>
       with_flags fnot fneg
